@@ -325,6 +325,20 @@ def run_case(case):
     if not isinstance(H1, cm.Raised):
         cmp(call(ST.evaluate_ehrenfest_hessian, dm2, B(sh2), pts2[:2], alpha=a, beta=b), np.einsum("ka,lb,nab->nkl", R, R, H1), "evaluate_ehrenfest_hessian (tensor law)", "ehrenfest_hessian",
             floor=mag(ST.evaluate_ehrenfest_hessian, dma, B(shells), pts[:2], alpha=a, beta=b, order=4))
+    # the same laws through the optional arguments: the symmetrised Hessian is a tensor too, and the potential of fixed orbitals
+    # (psi = T phi = T D^-1 phi', density matrix over the orbitals unchanged) is a scalar field
+    H1s = call(ST.evaluate_ehrenfest_hessian, dm, B(shells), pts[:2], alpha=a, beta=b, symmetric=True)
+    if not isinstance(H1s, cm.Raised):
+        cmp(call(ST.evaluate_ehrenfest_hessian, dm2, B(sh2), pts2[:2], alpha=a, beta=b, symmetric=True), np.einsum("ka,lb,nab->nkl", R, R, H1s),
+            "evaluate_ehrenfest_hessian(symmetric=True) (tensor law)", "ehrenfest_hessian",
+            floor=mag(ST.evaluate_ehrenfest_hessian, dma, B(shells), pts[:2], alpha=a, beta=b, order=4))
+    nfn = dm.shape[0]
+    rngT = bases.rng_for("C12-T", case.get("cid", ""), nfn)
+    Tm = rngT.normal(size=(max(1, nfn - 1), nfn))
+    bo = rngT.normal(size=(Tm.shape[0], Tm.shape[0]))
+    dmo = bo + bo.T
+    cmp(call(electrostatic_potential, B(sh2), dmo, pts2 + R @ np.array([0.05, 0.02, 0.01]), nuc2, Z, transform=Tm @ Dinv),
+        call(electrostatic_potential, B(shells), dmo, pts + np.array([0.05, 0.02, 0.01]), nuc, Z, transform=Tm), "electrostatic_potential(transform=T) of fixed orbitals", "esp_transform")
     if case["eri"]:
         E1 = call(electron_repulsion_integral, B(shells), notation="chemist")
         if not isinstance(E1, cm.Raised):
